@@ -143,7 +143,7 @@ class DynBaseRefDict(RefDict):
 
                 if root == impl:
                     return self.owner.rootspace
-                elif root == impl[:rootlen]:
+                elif impl.startswith(root + "."):   # Not just a longer name
                     return self.owner.rootspace.get_impl_from_name(
                         impl[rootlen+1:]) # +1 to remove preceding dot
                 else:
